@@ -153,46 +153,77 @@ def gen_random(rng, size, layout, nops, safe):
 
 def gen_boundary(rng, size, layout, variant):
     """aimed at the case splits of the invariant proof: exact fit at the end of the storage, front
-    landing on Size-2 / Size-1 / Size (wrap mark written or not), wrap with one byte gap, ring
-    emptied between alloc and push, split ring filled up to end-1."""
+    landing on Size-3 .. Size (wrap mark written or not), wrap with one byte gap, ring emptied
+    between alloc and push, split ring filled up to end-1. The last operations of a case try the
+    first size that must be refused (n = end for a wrap, n = end - front in a split ring,
+    n = Size - front + 1 at the end) and commit a PDU filling it in case it was handed out."""
     g = Gen(rng, size, layout)
     o, sim = g.o, g.sim
     small = 3 + o
-    half = (size + 1) // 2
-    # 1. bring front to size - d with PDUs of <= half the storage
-    d = variant % 4                         # distance of front to the end of the storage: 0,1,2,3
+    half = max(small, min(size // 2, 255))
+    full = lambda n: g.produce(n, n - 2 - o, interleave=0, full=True)
+    # 1. bring front to size - d
+    d = variant % 4
     target = size - d
-    first = rng.randint(small, max(small, min(half, target - small, 255)))
-    g.produce(first, first - 2 - o, interleave=0, full=True)
-    while sim.front < target:
+    while sim.front < target and not (sim.end > sim.front):
         rest = target - sim.front
-        n = rest if rest <= min(half, 255) and rest >= small else max(small, min(half, 255, rest - small))
-        if rest < small or not g.produce(n, n - 2 - o, interleave=0, full=True):
+        n = rest if small <= rest <= half else min(half, rest - small)
+        if n < small or not full(n):
             break
         if len(sim.fifo) > 2:
             g.consume(1)
-    # 2. free the oldest ones so that a wrap allocation fits, then allocate around the gap rule
-    g.consume(max(0, len(sim.fifo) - (variant // 4) % 2 - (1 if variant % 3 else 0)))
-    if variant % 5 == 0:
-        g.consume(len(sim.fifo))            # ring emptied: front = end = k
-    for n in sorted(set(sim.boundary_sizes()), reverse=bool(variant % 2))[:8]:
+    g.ops.append("st")
+    # 2. free the oldest PDUs (all of them in every fifth case: front = end = k)
+    kind = (variant // 4) % 3
+    if variant % 5 == 4:
+        g.consume(len(sim.fifo))
+    else:
+        g.consume(max(0, len(sim.fifo) - 1 - (variant // 2) % 2))
+    for n in sorted(set(sim.boundary_sizes()), reverse=bool(variant % 2))[:6]:
         g.ops.append("alloc %d" % n)
+    # 3. wrap (largest size that fits: one byte gap), optionally with the ring emptied meanwhile
     e = sim.end
-    n = max(small, min(e - 1 - (variant // 8) % 2, 255)) if e > small + 1 else small
-    if g.produce(n, None, interleave=0.5 if variant % 2 else 0):
+    if variant % 3 != 0 and sim.front >= e and e - 1 >= small and size - sim.front < e - 1:
+        n = min(e - 1, 255)
+        if (variant // 2) % 2 == 0 and kind != 1 and e - 1 >= 3 * small:
+            n = min((e - 1) // 2, 255)                        # leave room below end for the split-ring probes
+        if kind == 1:
+            g.ops.append("alloc %d" % n)
+            if sim.alloc(n) is not None:
+                L = n - 2 - o
+                g.ops.append("w 0 %s" % hexb(pdu_bytes(rng, o, L)))
+                g.consume(len(sim.fifo))                      # ring emptied between alloc and push
+                g.ops += ["st", "push"]
+                sim.push(L)
+        else:
+            full(n)
         g.ops += ["st", "peek", "more"]
-        # 3. split ring: fill the gap below end completely, one byte must stay free
-        for k in range(3):
-            gap = sim.end - sim.front if sim.end > sim.front else size - sim.front
-            for n in (gap + 1, gap, gap - 1):
-                if n >= small:
-                    g.ops.append("alloc %d" % n)
-            n = max(small, min(gap - 1, 255))
-            if not g.produce(n, n - 2 - o if k % 2 else None, interleave=0.2):
-                break
+        # split ring: fill the gap below end, one byte must stay free
+        if sim.end > sim.front:
+            gap = sim.end - sim.front
+            # either the largest size that fits, or a part of it (the tail then probes the rest)
+            n = min(gap - 1, 255) if (variant // 2) % 2 or gap - 1 < 2 * small else (gap - 1) // 2
+            if n >= small and full(n):
+                g.ops += ["peek", "more"]
     g.ops += ["dump", "st"]
+    # 4. the first size that must be refused
+    f, e = sim.front, sim.end
+    tail = variant % 3
+    if e > f:
+        n = e - f
+    elif tail == 0 and e >= small:
+        n = e
+    else:
+        n = size - f + 1
+    if small <= n <= 257:
+        g.ops.append("alloc %d" % n)
+        if sim.alloc(n) is None:
+            # nothing may be handed out; if something is, commit a PDU that fills it
+            g.ops += ["w 0 %s" % hexb(pdu_bytes(rng, o, n - 2 - o)), "push", "st", "peek", "more"]
+            g.ops += ["pop", "peek", "more"] * (len(sim.fifo) + 1) + ["st"]
+            return g.ops
     g.consume(len(sim.fifo))
-    g.ops += ["peek", "more", "st", "alloc %d" % small, "alloc %d" % min(half, 255), "alloc %d" % (size - 1), "alloc %d" % size, "alloc %d" % (size + 1)]
+    g.ops += ["peek", "more", "st", "alloc %d" % small, "alloc %d" % half, "alloc %d" % (size - 1), "alloc %d" % size, "alloc %d" % (size + 1)]
     return g.ops
 
 
